@@ -215,6 +215,33 @@ func c13Once(c *mon.Ctx) {
 			unknown = append(unknown, s)
 		}
 	}
+	// source lists with empty elements (skipped, as the CLI's comma-separated options allow) around known and unknown
+	// sources: every known source is kept, an unknown one is rejected wherever it stands, earlier content is replaced
+	if len(allSorted) >= 2 {
+		a, b := allSorted[0], allSorted[len(allSorted)-1]
+		for _, tc := range []struct {
+			raw  string
+			want []string // nil = must be rejected
+		}{
+			{a + ",," + b, []string{a, b}}, {"," + a, []string{a}}, {a + ",", []string{a}}, {a + ", ," + b, []string{a, b}}, {" , " + a + " ,, " + b + " , ", []string{a, b}},
+			{a + ",,NoSuchSource", nil}, {",,NoSuchSource", nil}, {a + ", ,NoSuchSource," + b, nil}, {"NoSuchSource,," + a, nil}, {a + ",," + b + ",,bogus", nil},
+		} {
+			sl := lint.SourceList{lint.LintSource(b), lint.LintSource(b), lint.LintSource(b)} // earlier content must be replaced
+			err := sl.FromString(tc.raw)
+			c.R.Count("evaluations", 1)
+			c.R.Distinct("unknown_strings", "list:"+tc.raw)
+			var got []string
+			for _, x := range sl {
+				got = append(got, string(x))
+			}
+			switch {
+			case tc.want == nil && err == nil:
+				c.V("unknown-source-accepted|list", fmt.Sprintf("SourceList.FromString(%q) accepts a list with an unknown source (gives %v)", tc.raw, got), "", nil, nil)
+			case tc.want != nil && (err != nil || strings.Join(got, ",") != strings.Join(tc.want, ",")):
+				c.V("source-list-parser|empty-elements", fmt.Sprintf("SourceList.FromString(%q) = %v, %v; want %v", tc.raw, got, err, tc.want), "", nil, nil)
+			}
+		}
+	}
 	// JSON values that are not strings are not sources
 	for _, v := range []string{`5`, `0`, `true`, `false`, `[]`, `["RFC5280"]`, `{}`, `{"source":"RFC5280"}`, `3.5`, `[1]`} {
 		for _, prior := range []lint.LintSource{"", lint.RFC5280} {
